@@ -100,7 +100,9 @@ def _insert_df(duck_conn: DuckDBPyConnection, df: pd.DataFrame, table_name: str)
     # Apply json.dumps to these columns
     for col in object_cols:
         # don't jsonify string
-        df[col] = df[col].apply(lambda x: json.dumps(x) if isinstance(x, (dict, list)) else x)
+        # keep the object dtype: letting pandas infer a dtype again turns ints next to None into (lossy) floats
+        values = [json.dumps(x) if isinstance(x, (dict, list)) else x for x in df[col]]
+        df[col] = type(df[col])(values, index=df.index, dtype=object)
 
     escaped_cols = ",".join(f'"{col}"' for col in df.columns.to_list())
     duck_conn.execute(f"INSERT INTO {table_name}({escaped_cols}) SELECT * FROM df")
